@@ -50,11 +50,12 @@ Definition union_uid (a b : list uid) : list uid := fold_left (fun acc u => inse
 (* ------------------------------------------------------------------ nodes, numbers *)
 (* l_u, l_df: codes of the float attributes (compared with == by new_leaf); l_df = -1 is inf.
    l_corr: the `correlation` dict (absent on independent leaves), values are codes of r (r*8).
-   `ensemble` is not modelled (histories do not build ensembles). *)
+   l_ens: the `ensemble` set (absent on independent leaves) as a list of uids sorted by uid. *)
 Record leaf := mkLeaf {
   l_label : option string; l_u : Z; l_df : Z; l_indep : bool;
   l_complex : option (uid * uid);              (* the `complex` attribute: a tuple of two uids (every reader builds a tuple) *)
-  l_corr : option (list (uid * Z)) }.
+  l_corr : option (list (uid * Z));
+  l_ens : option (list uid) }.
 
 Definition isig := (option string * Z)%type.      (* Node: label, code of (u, df) *)
 
@@ -213,7 +214,7 @@ Definition leaf_same (label : option string) (u df : Z) (indep : bool) (l : leaf
   ostr_eqb label (l_label l) && (u =? l_u l) && (df =? l_df l) && Bool.eqb indep (l_indep l).
 
 Definition fresh_leaf (u : uid) (label : option string) (lu df : Z) (indep : bool) : leaf :=
-  mkLeaf label lu df indep None (if indep then None else Some [(u, 8)]).
+  mkLeaf label lu df indep None (if indep then None else Some [(u, 8)]) (if indep then None else Some []).
 
 (* Context.new_leaf: reuse a registered indistinguishable node, raise if it differs, else create *)
 Definition new_leaf (s : session) (u : uid) (label : option string) (lu df : Z) (indep : bool)
@@ -362,7 +363,9 @@ Fixpoint thaw_leaves (s : session) (ln : list (uid * leaf)) : session * res unit
           let l1 := mkLeaf (l_label l) (l_u l) (l_df l) (l_indep l)
                            (match l_complex fl with Some c => Some c | None => l_complex l end)
                            (if dmem uid_eqb (s_leaves s) u then thaw_corr (l_corr l) (l_corr fl)
-                            else match l_corr fl with Some c => Some c | None => l_corr l end) in
+                            else match l_corr fl with Some c => Some c | None => l_corr l end)
+                           (* l.ensemble = set(fl_i.ensemble): assigned, also onto a live node *)
+                           (match l_ens fl with Some e => Some e | None => l_ens l end) in
           thaw_leaves (w_leaves s1 (lset (s_leaves s1) u l1)) t
       end
   end.
@@ -428,7 +431,7 @@ Fixpoint thaw_reals (s : session) (iu : list (ouid * isig)) (a : archive) (items
 Definition set_complex (s : session) (u : uid) (c : uid * uid) : session :=
   match lget (s_leaves s) u with
   | None => s
-  | Some l => w_leaves s (lset (s_leaves s) u (mkLeaf (l_label l) (l_u l) (l_df l) (l_indep l) (Some c) (l_corr l)))
+  | Some l => w_leaves s (lset (s_leaves s) u (mkLeaf (l_label l) (l_u l) (l_df l) (l_indep l) (Some c) (l_corr l) (l_ens l)))
   end.
 
 Fixpoint thaw_complexes (s : session) (iu : list (ouid * isig)) (a : archive) (items : list (string * cval))
@@ -581,7 +584,7 @@ Definition write (s : session) (a : archive) (f : fmt) : archive * res doc :=
 Definition xml_label (l : option string) : option string :=
   match l with Some EmptyString => None | _ => l end.
 Definition xml_leaf (l : leaf) : leaf :=
-  mkLeaf (xml_label (l_label l)) (l_u l) (l_df l) (l_indep l) (l_complex l) (l_corr l).
+  mkLeaf (xml_label (l_label l)) (l_u l) (l_df l) (l_indep l) (l_complex l) (l_corr l) (l_ens l).
 
 (* what the decoder hands to _thaw *)
 Definition decode (d : doc) : archive :=
@@ -608,6 +611,7 @@ Inductive op :=
 | ONewSession (k : Z)                                           (* a new interpreter: fresh Context(id=k) *)
 | ODeclReal (lbl : option string) (u df : Z) (indep : bool)     (* ureal *)
 | ODeclComplex (lbl : option string) (ure uim df : Z) (indep : bool)   (* ucomplex(z,(u_re,u_im)) *)
+| ODeclEnsemble (specs : list (option string * Z)) (df : Z)      (* multiple_ureal(x_seq, u_seq, df, label_seq) *)
 | OConst | OConstC                                              (* constant(real) / constant(complex) *)
 | OOther                                                        (* a plain float: not an uncertain number *)
 | OPart (a : nat) (imag : bool)                                 (* z.real / z.imag *)
@@ -669,7 +673,7 @@ Definition result_real (s : session) (r : robj) (lbl : option string) (sg : Z) :
       match lbl, lget (s_leaves s) u with
       | Some _, Some l =>
           match l_label l with
-          | None => (w_leaves s (lset (s_leaves s) u (mkLeaf lbl (l_u l) (l_df l) (l_indep l) (l_complex l) (l_corr l))), Ok r)
+          | None => (w_leaves s (lset (s_leaves s) u (mkLeaf lbl (l_u l) (l_df l) (l_indep l) (l_complex l) (l_corr l) (l_ens l))), Ok r)
           | Some _ => (s, Ok r)
           end
       | _, _ => (s, Ok r)
@@ -687,18 +691,47 @@ Definition result_real (s : session) (r : robj) (lbl : option string) (sg : Z) :
 Definition lbl_suffix (l : option string) (sfx : string) : option string :=
   match l with None => None | Some x => Some (String.append x sfx) end.
 
-Definition leaf_dep_inf (s : session) (u : uid) : bool :=
+(* UncertainReal.set_correlation: both dof infinite, or the second number is in the first one's ensemble *)
+Definition leaf_dep (s : session) (u : uid) : bool :=
   match lget (s_leaves s) u with
-  | Some l => negb (l_indep l) && (l_df l =? -1) && match l_corr l with Some _ => true | None => false end
+  | Some l => negb (l_indep l) && match l_corr l with Some _ => true | None => false end
   | None => false
+  end.
+Definition corr_allowed (s : session) (u v : uid) : bool :=
+  match lget (s_leaves s) u, lget (s_leaves s) v with
+  | Some lu, Some lv =>
+      ((l_df lu =? -1) && (l_df lv =? -1))
+      || match l_ens lu with Some e => existsb (uid_eqb v) e | None => false end
+  | _, _ => false
   end.
 Definition corr_set (s : session) (u v : uid) (r : Z) : session :=
   match lget (s_leaves s) u with
   | Some l => match l_corr l with
               | Some c => w_leaves s (lset (s_leaves s) u (mkLeaf (l_label l) (l_u l) (l_df l) (l_indep l) (l_complex l)
-                                                                     (Some (dset uid_eqb c v r))))
+                                                                     (Some (dset uid_eqb c v r)) (l_ens l)))
               | None => s
               end
+  | None => s
+  end.
+
+(* core.multiple_ureal: one dependent ureal per (label, u), then lib.real_ensemble gives every member
+   the set of all the uids *)
+Fixpoint decl_many (s : session) (specs : list (option string * Z)) (df : Z) : session * res (list robj) :=
+  match specs with
+  | [] => (s, Ok [])
+  | (lbl, u) :: t =>
+      match decl_real s lbl u df false with
+      | (s1, Err e) => (s1, Err e)
+      | (s1, Ok r) => match decl_many s1 t df with
+                      | (s2, Ok rs) => (s2, Ok (r :: rs))
+                      | (s2, Err e) => (s2, Err e)
+                      end
+      end
+  end.
+Definition robj_uid (r : robj) : list uid := match r_node r with NLeaf u => [u] | _ => [] end.
+Definition set_ens (s : session) (e : list uid) (u : uid) : session :=
+  match lget (s_leaves s) u with
+  | Some l => w_leaves s (lset (s_leaves s) u (mkLeaf (l_label l) (l_u l) (l_df l) (l_indep l) (l_complex l) (l_corr l) (Some e)))
   | None => s
   end.
 
@@ -718,6 +751,15 @@ Definition step0 (st : state) (o : op) : state * out :=
       match decl_real s lbl u df indep with
       | (s1, Ok r) => push_obj (w_ses st s1) (PReal r)
       | (s1, Err e) => (w_ses st s1, OutErr e)
+      end
+  | ODeclEnsemble specs df =>
+      match decl_many s specs df with
+      | (s1, Err e) => (w_ses st s1, OutErr e)
+      | (s1, Ok rs) =>
+          let us := flat_map robj_uid rs in
+          let e := fold_left (fun acc u => insert_uid u acc) us [] in
+          (mkSt (fold_left (fun acc u => set_ens acc e u) us s1) (st_objs st ++ map PReal rs) (st_ars st) (st_docs st),
+           OutObjs (map PReal rs))
       end
   | ODeclComplex lbl ure uim df indep =>
       match decl_real s (lbl_suffix lbl "_re") ure df indep with
@@ -787,7 +829,7 @@ Definition step0 (st : state) (o : op) : state * out :=
       | Some (PReal x), Some (PReal y) =>
           match r_node x, r_node y with
           | NLeaf ux, NLeaf uy =>
-              if negb (uid_eqb ux uy) && leaf_dep_inf s ux && leaf_dep_inf s uy && plain x && plain y
+              if negb (uid_eqb ux uy) && leaf_dep s ux && leaf_dep s uy && corr_allowed s ux uy && plain x && plain y
                  && negb (r =? 0) && (-8 <=? r) && (r <=? 8)
               then (w_ses st (corr_set (corr_set s ux uy r) uy ux r), OutOk)
               else (st, OutSkip)
